@@ -47,6 +47,10 @@ def scalar(draw):
         return {"t": "complex", "re": draw(_finite_float()), "im": draw(_finite_float()), "np": np_}
     if k == "bool":
         return {"t": "bool", "v": draw(st.booleans()), "np": np_}
+    if draw(st.integers(0, 7)) == 0:
+        # strings whose content reads like another kind of literal, a comment, a keyword or a p-array name
+        return {"t": "str", "v": draw(st.sampled_from(["True", "False", "1", "1.5", "2j", "1e3", "pi", "None", "q0", "[1, 2]", "-1", "nan", "inf",
+                                                        "#", "x # y", "{p}", "for", "p0", "    ", "="]))}
     return {"t": "str", "v": draw(st.text(alphabet=st.characters(blacklist_characters='"\r\n', blacklist_categories=("Cs",)), max_size=8))}
 
 
